@@ -199,7 +199,7 @@ def pyCmp (op : SCmp) (x y : PyVal) : Except AsmError CObj :=
   | .ex l, .ex r => if rightFirst l r then exprCmpS op.swap r x else exprCmpS op l y
   | .ex l, .int _ => exprCmpS op l y
   | .int _, .ex r => exprCmpS op.swap r x
-  | _, _ => typeError                                          -- `int < int` is a `bool`, `None < x` raises
+  | _, _ => typeError                                          -- `int < int` is a `bool`
 
 inductive SCond where
   | cmp (op : SCmp) (a b : SExpr)
